@@ -22,6 +22,7 @@ RULE = ("histories over {load, convert collection, convert rule, init pipeline, 
         "distinct = distinct (history, probe kind); non-trivial = history length >= 2"
         "; probe kinds incl. cased and plain string operators, regex, null; post-processing items that keep parsed templates (json, embed); per-rule detection contents"
         "; the user pipeline reads placeholder values from a file (filtered); history op: a second backend with backend options")
+RULE += '; round 4: registration histories of sigma.pipelines.base.Pipeline (decorated functions, inheriting classes): what a handle builds is independent of later registrations (Lean Model.Registry)'
 ASSUMPTIONS = [
     "fresh objects = a new pipeline from the same dict, a new backend instance of a new class object built from the same configuration, caches cleared",
     "observation through a finalize_query hook defined in the harness's backend subclass (state seen by the conversion) and a template post-processing item (state seen by the item)",
@@ -84,7 +85,63 @@ def gen_cases(tier, seed, gen, effort):
                 if pk == "casedprobe" and len(h) <= 2 and len(h) > 0 and rnd.random() < 0.5:
                     continue
                 cases.append({"history": list(h), "probe": probe, "probe_kind": pk})
+    # registration histories of sigma.pipelines.base.Pipeline (decorated functions / inheriting classes): what a handle denotes
+    # must not depend on what was registered afterwards
+    for _ in range((150 if not thorough else 3000) * effort):
+        ops, nf = [], 0
+        for _ in range(rnd.randint(2, 8)):
+            k = rnd.choice(["decorate", "decorate", "instantiate", "callFunc", "callFunc", "callClass"])
+            if k == "decorate": ops.append(["decorate", rnd.randint(1, 6)]); nf += 1
+            elif k == "instantiate":
+                c = rnd.randint(0, 2); ops.append(["instantiate", c, 100 + c])
+            elif k == "callFunc": ops.append(["callFunc", rnd.randint(0, max(nf, 1))])
+            else: ops.append(["callClass", rnd.randint(0, 2)])
+        # every handle is called at the end as well
+        ops += [["callFunc", h] for h in range(nf)] + [["callClass", c] for c in sorted({o[1] for o in ops if o[0] == "instantiate"})]
+        cases.append({"reg": ops})
     return cases, False
+
+
+def run_registry(case):
+    from sigma.pipelines.base import Pipeline
+    from sigma.processing.pipeline import ProcessingPipeline
+    saved = Pipeline.__dict__.get("_instance")
+    Pipeline._instance = None                 # as in a new process
+    try:
+        funcs, classes, insts, outs = [], {}, {}, []
+
+        def name_of(obj):
+            p = obj()
+            return int(p.name[1:]) if isinstance(p, ProcessingPipeline) and (p.name or "").startswith("d") else f"not a definition: {p!r}"[:80]
+        for op in case["reg"]:
+            if op[0] == "decorate":
+                d = op[1]
+                funcs.append(Pipeline((lambda d_: (lambda: ProcessingPipeline(name=f"d{d_}")))(d)))
+                outs.append(len(funcs) - 1)
+            elif op[0] == "instantiate":
+                c, d = op[1], op[2]
+                if c not in classes:
+                    classes[c] = type(f"K{c}", (Pipeline,), {"apply": (lambda d_: (lambda self: ProcessingPipeline(name=f"d{d_}")))(d)})
+                insts[c] = classes[c]()
+                outs.append(c)
+            elif op[0] == "callFunc":
+                outs.append(name_of(funcs[op[1]]) if op[1] < len(funcs) else None)
+            else:
+                outs.append(name_of(insts[op[1]]) if op[1] in insts else None)
+        return {"outcome": "ok", "outs": outs}
+    except Exception as e:
+        return {"outcome": outcome_of_exception(e), "msg": str(e)[:200]}
+    finally:
+        Pipeline._instance = saved
+
+
+def cleanup():
+    """remove the per-worker scratch files of `run_history`"""
+    import glob, os
+    from .common import WORK
+    for f in glob.glob(os.path.join(WORK, "c15_users_*.txt")):
+        try: os.remove(f)
+        except OSError: pass
 
 
 def run_history(case, fresh):
@@ -146,6 +203,8 @@ def run_history(case, fresh):
 
 
 def run_impl(case):
+    if "reg" in case:
+        return run_registry(case)
     try:
         want = run_history(case, fresh=True)
     except Exception as e:
@@ -179,11 +238,29 @@ def sys_ops(case):
 
 
 def make_request(case, impl, gen):
+    if "reg" in case:
+        return {"op": "reg.run", "ops": case["reg"]}
     ops, a_last = sys_ops(case)
     return {"op": "pipe.sys", "ops": ops}
 
 
+def judge_registry(case, impl, reply):
+    io = impl["outcome"]
+    key = ("reg", case["reg"])
+    nt = sum(1 for o in case["reg"] if o[0] in ("decorate", "instantiate")) >= 2
+    tags = ("stream:registry", f"impl:{io.split(':')[0]}")
+    if io != "ok":
+        return Verdict("violation", f"registration history {case['reg']} raised {io}: {impl.get('msg')}", nt, key, tags=tags)
+    if impl["outs"] != reply["outs"]:
+        k = next(i for i, (a, b) in enumerate(zip(impl["outs"], reply["outs"])) if a != b)
+        return Verdict("violation", (f"pipeline registration history {case['reg'][:k + 1]}: step {k} {case['reg'][k]} gave {impl['outs'][k]!r} but the handle was "
+                                     f"registered for definition {reply['outs'][k]!r} (what a registered pipeline builds depends on what was registered later)"), nt, key, tags=tags)
+    return Verdict("ok", "", nt, key, tags=tags)
+
+
 def judge(case, impl, reply):
+    if "reg" in case:
+        return judge_registry(case, impl, reply)
     io = impl["outcome"]
     key = (case["history"], case["probe"], case["probe_kind"])
     nt = len(case["history"]) >= 2
